@@ -62,7 +62,7 @@ Theorem yield_replies : forall lookup d callee req opts args kw m,
       cget (d_calls d) cid = Some (fst cid) /\
       exists inv, cget (d_invs d) (callee, req) = Some inv /\ inv_call inv = cid /\
                   fin = negb (opt_bool opts "progress") /\
-                  (fin = true -> inv_inprogress inv = false ->
+                  (fin = true ->
                    cget (d_calls (fst (sync_yield d callee req opts args kw))) cid = None).
 Proof.
   intros lookup d callee req opts args kw m WF Hin cid fin Hr.
@@ -73,8 +73,8 @@ Proof.
     assert (Ef : negb (opt_bool (if opt_bool opts "progress" then [("progress", VBool true)] else []) "progress")
                  = negb (opt_bool opts "progress")) by (destruct (opt_bool opts "progress"); reflexivity).
     rewrite Ef in Hr. inversion Hr; subst cid fin. split; [exact Hc|].
-    exists inv. repeat split; auto. intros Hf Hp. apply negb_true_iff in Hf.
-    rewrite (sync_yield_owner _ _ _ _ _ _ _ Hi), Hf, Hp. cbn [fst]. rewrite dc_calls. apply cget_cdel_same.
+    exists inv. repeat split; auto. intros Hf. apply negb_true_iff in Hf.
+    rewrite (sync_yield_owner _ _ _ _ _ _ _ Hi), Hf. cbn [fst]. rewrite dc_calls. apply cget_cdel_same.
   - rewrite H in Hin. cbn [snd] in Hin.
     destruct (opt_bool opts "progress"); [destruct Hin as [<-|[]]; discriminate Hr | destruct Hin].
 Qed.
